@@ -15,6 +15,18 @@ meaning RECORD OVER EXACTLY THESE NAMES (value of a name = the attribute of a ma
 one), so that the loops unroll entry by entry (pyvc.loops.unroll_record); `obj.__dict__[name]` reads the record, `obj.__dict__[name]
 = v` writes the attribute / heap field directly (no property setter, as in Python).  ASSUMPTION: instances have no other attributes.
 
+FINDING (reported, NOT absorbed; it lies outside the ASSUMPTION above, which is therefore a real restriction): a model read from
+SBML carries ONE MORE instance attribute, `_sbml` (cobra.io.sbml._sbml_to_model: `cobra_model._sbml = meta`, a dictionary with the
+document's notes / annotation / creators that write_sbml_model writes back).  Model.copy copies every attribute that is not in its
+do_not_copy_by_ref set BY REFERENCE, so `copy._sbml is model._sbml` (copy.deepcopy does not share it).  Native reproduction
+(/venv/bin/python against /repo): m = load_model("textbook"); c = m.copy(); c._sbml is m._sbml -> True;
+c._sbml.setdefault("notes", {})["remark"] = "edited in the COPY only"; write_sbml_model(m, f) -> the file written for the ORIGINAL
+contains "edited in the COPY only" (it did not before the edit).  Deductively: the contract key `Model.copy[with_sbml_attribute]`
+(KEYS_FINDING; the same contract for a model that has the additional attribute `_sbml` holding a mutable object, with the one
+additional clause "the copy's `_sbml` was allocated during the call") discharges everything except that clause (exit post.73:
+unknown); it is NOT wired into props/C12.py.  For models built through the API (Model(), add_* ...) and the JSON / YAML / dict
+readers no such attribute exists and the assumption holds.
+
 SHAPE.  `self` is a MATERIALISED model whose attributes are exactly ATTRS["Model"] (four DictLists, context stack, compartments
 dictionary, notes / annotation / solver as opaque references, tolerance, identifier, name).  Metabolites, genes, reactions, groups
 are symbolic references whose attributes are heap fields; set-valued fields (`_reaction`, `_genes`, `_members`, the KEY SET of
@@ -129,6 +141,7 @@ MM = "cobra/core/model.py"
 REG.inline.add("Object.annotation@getter")
 REG.inline.add("Object.annotation@setter")
 KEY = "Model.copy"
+KEY_SBML = "Model.copy[with_sbml_attribute]"      # FINDING reproduction (not wired into props/C12: it does NOT verify), see the docstring
 I_ = z3.IntSort()
 
 
@@ -230,8 +243,11 @@ if set(_MODEL_ATTR_TYPES) != set(ATTRS["Model"]):
     raise RuntimeError(f"c12_model_copy: the attributes of Model derived from the source {ATTRS['Model']} differ from the typed ones")
 
 
-def _model_t():
-    return TObj("Model", {a: _MODEL_ATTR_TYPES[a] for a in ATTRS["Model"]})
+def _model_t(extra=()):
+    t = {a: _MODEL_ATTR_TYPES[a] for a in ATTRS["Model"]}
+    for a in extra:
+        t[a] = TRef("dict")          # an additional instance attribute that holds a mutable object (FINDING reproduction only)
+    return TObj("Model", t)
 
 
 # ================================================================ allocation: birth stamps
@@ -284,7 +300,7 @@ def alloc_ref(st, cls, base):
 
 
 def _is_me(eng):
-    return getattr(eng.cur_contract, "key", None) == KEY
+    return getattr(eng.cur_contract, "key", None) in (KEY, KEY_SBML)
 
 
 def _self(eng):
@@ -297,6 +313,8 @@ def _dict_record(eng, st, v):
     names = ATTRS.get(v.cls)
     if names is None:
         return None
+    if isinstance(v, VObj) and "attr:_sbml" in st.objs[v.oid]:
+        names = tuple(names) + ("_sbml",)      # only for the contract KEY_SBML, whose model carries this attribute
     items = []
     for n in names:
         if isinstance(v, VObj):
@@ -1025,6 +1043,28 @@ REG.add(Contract(MM, "Model.copy", "C12", [("self", _model_t())], [Case("any", e
                         12: LoopSpec(_inv_tail, lambda E, Lc: _heap_locs(["var_lb", "var_ub"])),
                         }))
 KEYS = [KEY]
+
+
+# ---------------------------------------------------------------- FINDING reproduction: a model that carries the attribute the SBML reader sets
+def _pre_sbml(E):
+    return z3.And(_pre(E), BIRTH(E.s0.objs[E["self"].oid]["attr:_sbml"].t) < CLOCK0)
+
+
+def _post_sbml(E):
+    V = View(E, E.s1)
+    if V.new is None:
+        return z3.BoolVal(False)
+    v = E.s1.objs[V.new.oid].get("attr:_sbml")
+    # the mutable object held in the additional attribute must not be the original's: allocated during the call
+    sep = BIRTH(v.t) >= CLOCK0 if isinstance(v, VRef) else z3.BoolVal(False)
+    return z3.And(_post(E), sep)
+
+
+REG.add(Contract(MM, "Model.copy", "C12", [("self", _model_t(("_sbml",)))], [Case("any", ensures=_post_sbml)], pre=_pre_sbml,
+                 modifies=_modifies, key=KEY_SBML, result="self", loops=dict(REG.get(KEY).loops),
+                 note="FINDING reproduction, NOT part of the property run: a model with the additional instance attribute `_sbml` "
+                      "(set by cobra.io.sbml._sbml_to_model); the separation clause for it does not verify"))
+KEYS_FINDING = [KEY_SBML]
 
 
 def lemmas():
